@@ -128,3 +128,15 @@ reg("C13",
     "maximal fill of chop/crop) every behaviour is allowed; differences from the transcription there are DRIFT only. Hangs inside Rich are observed through a CPU-time watchdog.",
     "TLA+ specs Cells.tla / Segments.tla / LruCache.tla; TLC exhaustive model checks + TLC slice evaluation over all code points + TLC-generated cache histories replayed on the real LRUCache + TLC validation of recorded executions",
     "DESIGN.md §4 C13")
+
+reg("C06",
+    "TLC checks exhaustively, over all triples of a small style domain (2 tri-state attributes, 2/3 colours + unset, 2 links + none: 14M / 80M triples), that the abstract Add is associative, has Null as identity, is right-biased per field, that Combine is its fold, that the bit-mask design of __add__ refines it and that Str/Parse round-trip. A construction-routes machine (keywords, parse, normalize.parse, from_color, +, chain, combine, copy, update_link, without_color, str; depth 3) is model-checked for refinement and hash-key consistency of the derived-hash design (the stored-hash transcription of 9.10.0 is refuted by TLC). Every generated route (26k / 59k) is rebuilt with real constructors under bindings covering all 156 ordered pairs of the 13 real attributes, together with triples over the full 13-attribute domain and style definitions (all <=2 / <=3-word definitions over a 52-word vocabulary plus random longer ones). TLC judges each recorded execution (44k / 500k) for right bias, associativity, identity, parse = named style, str/normalize round trips and eq=>hash over all pairs of objects in a record. Bounded conformance, not a proof about the Python code.",
+    "Trusted: the driver's lexer for definitions and str() output; projection via public getters (Color -> type/number/triplet + spelling class of its name); substitution of real attributes, colours and urls for the model's; ==/hash() booleans computed by Python. Links non-empty without whitespace; colours limited to default / table names / color(n) / #rrggbb / rgb() in canonical decimal form, and Color objects from parse, from_ansi, from_rgb, default. Values of copy / update_link / without_color / from_color, error cases, upper-case and redefining definitions are only pinned as DRIFT. lru caches are cleared per case.",
+    "TLA+ specs Style.tla / MC_Style / Trace_Style; TLC exhaustive model check of the laws and of the constructor-routes machine, TLC-generated routes replayed on the real Style class, TLC batch validation of recorded executions",
+    "DESIGN.md §4 C06")
+
+reg("C18",
+    "TLC judges the real Color.downgrade(system) (first and second call) and Color.get_ansi_codes(foreground=) point by point against Color.tla: result in the gamut of the target, default stays default, representable colours unchanged (standard index n may be re-tagged windows n), 16-colour targets pick an index of minimum distance under the exact integer radicand of palette.py (any minimiser accepted; sqrt shown order- and tie-preserving), greys to 256 land on {16,231} u 232..255, second conversion identical, SGR parameters 30-37/90-97, 40-47/100-107, 38;5;n/48;5;n, 38;2;r;g;b/48;2;r;g;b, 39/49 for sources and results. Quick: 62 415 stratified source colours. Thorough: all 16 777 216 RGB colours plus the 256 indexed colours and default x {standard, 256, truecolor, windows} x fg/bg (exhaustive enumeration with TLC as evaluator, not state exploration). M1: a transcription of the algorithm in integer/rational arithmetic is model-checked against the relation on a lattice (73 k states, every path of the algorithm covered, relation shown non-trivial).",
+    "Trusted: projection Color->(kind, number, r, g, b), decimal strings->ints, dictionary/delta-run grouping of equal observations and the `is` identity test (drivers/c18.py); palettes read from the tree under test. For the 256 target the statement only requires gamut and grey ramp: changes of the cube or threshold arithmetic that stay in gamut are reported as DRIFT against the transcription, not as violations. The 24 saturation ties and 5 grey-step rounding ties are left open in the transcription. Windows-typed and EIGHT_BIT-typed n<16 sources are outside the quantifier (gamut only). Cube sweep: 16-colour tie-break drift compared on 1 row in 8.",
+    "TLA+ spec Color.tla; TLC exhaustive model check of the transcription (MC_Color) + TLC slice evaluation (Trace_Color) of recorded real executions over the whole finite input space",
+    "DESIGN.md §4 C18")
